@@ -16,7 +16,7 @@ PROPERTIES = {
         "level": "proof",
         "min_obligations": 2000,
     },
-    "T": {"contracts": [axes.AxisUnion, axes.AxisIntersection, axes.CommonAxis], "level": "proof"},
+    "T": {"contracts": [align.GetAlignedAxes], "level": "proof"},
     "C03": {
         "contracts": [bases.SetItem, indexing.MaybeCastType, (bases.Accessors, r"write|put|setitem"), (bases.ItemForwarding, r"^set"),
                       (bases.GetIndices, r"^r[01]-")],
